@@ -316,6 +316,8 @@ func init() {
 			// re-open with another compression setting; re-open after a value-log GC left the same key and version in two L0 tables
 			bfs("lsm", 4, 30, prm("oracle", "c12", "mode", "normal", "keys", 2, "reopen", true, "snapshots", false, "ops", "Sa Da F C0 R RC")),
 			bfs("lsm", 2, 30, prm("oracle", "c12", "mode", "normal", "keys", 2, "big", true, "gc", true, "vlog_max_entries", 1, "reopen", true, "readonly", true, "snapshots", false, "ops", "Ba F C0 G R RO RC"), seq("Ba Bb F G F"), seq("Ba Bb F G")),
+			// re-open with a much larger BaseLevelSize (the base level moves to the last level while the level above it holds data), then deletes and compactions
+			bfs("lsm", 4, 30, prm("oracle", "c12", "mode", "normal", "keys", 1, "bulk", true, "value_threshold", 1024, "l0_tables", 1, "reopen", true, "rebase", true, "snapshots", false, "ops", "Sa Da F C0 C1 RB R"), seq("Ux F C0 Sa F C0")),
 			// read-only opens of what a crash leaves behind (orphan tables, empty or truncated log files): no file may change
 			en("crash08", 16, 40, prm("oracle", "c07ro", "len", 3, "alphabet", "T2 TV WB F C R"))},
 		[]Stage{bfs("lsm", 6, 900, prm("oracle", "c12", "keys", 2, "reopen", true, "readonly", true, "big", true, "ops", "Sa Sb Ba Da F C0 C1 T R RO")), bfs("lsm", 6, 600, prm("oracle", "c12", "mode", "normal", "keys", 2, "reopen", true, "readonly", true, "ops", "Sa Sb Da F C0 C1 R RO")), bfs("lsm", 5, 600, prm("oracle", "c12", "keys", 2, "reopen", true, "closecompact", true, "ops", "Sa Sb Da F C0 T R CX")),
@@ -404,6 +406,8 @@ func init() {
 			n["ops"] = ops
 			return n
 		}
+		shrink := withOps(base, "")
+		shrink["bulk"], shrink["value_threshold"] = true, 1024 // U<prefix>: 10 filler keys x 400 bytes inline, about 4 KiB per table
 		big := withOps(base, "")
 		big["value_threshold"] = 1024 // big values stay inline and fill a table each: one table per key in the deeper level
 		big["big_size"] = 400
@@ -414,6 +418,8 @@ func init() {
 				bfs("lsm", 3, 50, withOps(big, "Sp1a Sq Dp1a F C0 Yp1 Yp Yp1,q Yp1a,qq Yp1a,p1 V R"), seeds...),
 				// an older L0 table WITHOUT the prefix whose key is deleted/overwritten in the table the drop flushes
 				bfs("lsm", 4, 40, withOps(base, "Dq Sq Sp1a F Yp1 Yp1,p2 R"), seq("Sq F"), seq("Sq Sp2a F")),
+				// a drop that empties the LAST level while the level above it still holds a key
+				bfs("lsm", 4, 30, withOps(shrink, "Yx Dq Sq F C0"), seq("Ux F C0 Sq F C0")),
 				sched("c29race", 2, 4, 40, prm("cases", 4)),
 				en("crash08", 16, 60, prm("oracle", "c29", "len", 3, "alphabet", "T2 WB F C DP DA")),
 				en("crash08", 16, 40, prm("oracle", "c29", "len", 4, "alphabet", "T2 F DA DP")), // overwrite after a flush, then the drop
